@@ -515,7 +515,6 @@ fn all_n<N: ArrayLength>(st: &mut Stats, args: &Args) {
     }
     if args.part_on("map") {
         t_box_realign::<N>(st);
-        t_resize_all::<N>(st);
         t_map_fold::<Tok, Tok, N>(st);
         t_map_fold::<u32, u32, N>(st);
         t_map_fold::<Tok, u32, N>(st);
@@ -553,6 +552,11 @@ fn main() {
     lens!(&mut st, args, [9, 10, 11, 12, 13, 15, 16, 17, 24, 31, 32, 33, 63, 64, 65, 100, 127, 128, 129, 255, 256, 257, 1000, 1024]);
     if args.thorough() {
         lens!(&mut st, args, [511, 512, 513, 1023]);
+    }
+    if args.part_on("map") {
+        // (a shorter length list: ten type pairs x six forms per length is a lot of optimised code)
+        macro_rules! resize_lens { ([$($v:literal),*]) => { $( if $v <= args.maxn { t_resize_all::<U<$v>>(&mut st); } )* }; }
+        resize_lens!([0, 1, 2, 3, 5, 8, 17, 100]);
     }
     st.finish();
 }
